@@ -6,7 +6,8 @@
    is carried by the correspondence and the permutation oracle of the check. *)
 From Coq Require Import List Permutation ZArith Bool Arith.
 From PV Require Import Model.Term Model.Subst Model.Unify Model.FD Model.State Model.Engine Spec.StreamSem
-  Proofs.UnifyProofs Proofs.DiseqProofs Proofs.StreamProofs Proofs.EngineProofs Proofs.PermProofs.
+  Proofs.UnifyProofs Proofs.DiseqProofs Proofs.StreamProofs Proofs.EngineProofs Proofs.PermProofs
+  Proofs.SemProofs Proofs.MonoProofs Proofs.DenProofs.
 Import ListNotations.
 
 Theorem C04_disjunction : forall defs m n st gs gs' zs,
@@ -33,6 +34,28 @@ Theorem C04_disequalities : forall store i j p q th,
   store_holds th (fst (push_and_normalize (fst (push_and_normalize store j (KDiseq q))) i (KDiseq p))).
 Proof. intros. rewrite !push_and_normalize_den. tauto. Qed.
 
+(* WHOLE PROGRAMS, semantically: the logical reading of a goal does not depend on the order of its
+   conjuncts or clauses, and (C02_answers_sound) every solution of every delivered answer of ANY
+   program satisfies that reading - so reordering can neither add solutions to answers nor make an
+   answer's solutions violate the reordered program. *)
+Theorem C04_reading_conj_order : forall defs th k k' a b, Den defs th (CConj k a b) <-> Den defs th (CConj k' b a).
+Proof.
+  intros defs th k k' a b. split; intros H; inversion H; subst;
+    try (constructor; assumption); match goal with O : opaque _ |- _ => destruct O end.
+Qed.
+Theorem C04_reading_clause_order : forall defs th k k' gs gs', Permutation gs gs' ->
+  Den defs th (CConde k gs) -> Den defs th (CConde k' gs').
+Proof.
+  intros defs th k k' gs gs' P H. inversion H; subst; [|match goal with O : opaque _ |- _ => destruct O end].
+  econstructor; [eapply Permutation_in; eauto|assumption].
+Qed.
+Theorem C04_answers_sound_any_order : forall defs kk u n k a b st s' rest u' th,
+  next defs kk u (start defs n (CConj k b a) st) = NAnswer s' rest u' -> Mst th s' -> Den defs th (CConj k a b).
+Proof.
+  intros defs kk u n k a b st s' rest u' th H HM. apply (C04_reading_conj_order defs th k k b a).
+  apply (proj1 (delivered_sound _ _ _ _ _ _ _ _ _ th H HM)).
+Qed.
+
 Check C04_disjunction : forall defs m n st gs gs' zs,
   Permutation gs gs' ->
   ansS (start defs (S m)) (start defs (S n) (CConde BFS gs) st) zs ->
@@ -41,3 +64,6 @@ Print Assumptions C04_disjunction.
 Print Assumptions C04_equalities.
 Print Assumptions C04_no_spurious_failure.
 Print Assumptions C04_disequalities.
+Print Assumptions C04_reading_conj_order.
+Print Assumptions C04_reading_clause_order.
+Print Assumptions C04_answers_sound_any_order.
